@@ -1,3 +1,4 @@
+pub mod c01;
 pub mod c02;
 pub mod c03;
 pub mod c04;
@@ -6,7 +7,9 @@ pub mod c06;
 pub mod c07;
 pub mod cfgrammar;
 pub mod c08;
+pub mod c09;
 pub mod c13;
+pub mod c14;
 pub mod c19;
 pub mod common;
 pub mod c20;
@@ -17,6 +20,7 @@ use serde_json::Value;
 
 pub fn run(prop: &str, tier: Tier, replay: Option<Value>) -> ! {
     match prop {
+        "C01" => c01::run(tier, replay),
         "C02" => c02::run(tier, replay),
         "C03" => c03::run(tier, replay),
         "C04" => c04::run(tier, replay),
@@ -24,7 +28,9 @@ pub fn run(prop: &str, tier: Tier, replay: Option<Value>) -> ! {
         "C06" => c06::run(tier, replay),
         "C07" => c07::run(tier, replay),
         "C08" => c08::run(tier, replay),
+        "C09" => c09::run(tier, replay),
         "C13" => c13::run(tier, replay),
+        "C14" => c14::run(tier, replay),
         "C19" => c19::run(tier, replay),
         "C20" => c20::run(tier, replay),
         _ => crate::engine::report::machinery_fail(&format!("unknown property {prop}")),
@@ -33,6 +39,8 @@ pub fn run(prop: &str, tier: Tier, replay: Option<Value>) -> ! {
 
 pub fn worker(kind: &str) -> Handler {
     match kind {
+        "c01" => c01::worker(),
+        "c14" => c14::worker(),
         "c19" => c19::worker(),
         "script" => common::script_worker(),
         _ => crate::engine::report::machinery_fail(&format!("unknown worker kind {kind}")),
